@@ -388,6 +388,9 @@ func (x *Exec) specField(base Val, name string, env *Env) Val {
 
 func (x *Exec) specIndex(base, idx Val, env *Env) Val {
 	if base.K == KArr {
+		if base.Typ != nil {
+			return x.mkVal(sx("select", base.T, idx.T), base.Typ)
+		}
 		return specInt(sx("select", base.T, idx.T))
 	}
 	if base.K != KSlice {
@@ -730,7 +733,11 @@ func (x *Exec) evalCall(e *Expr, env *Env) Val {
 		a := args()[0]
 		key, el := x.sliceHeap(a.Typ)
 		h := x.heapFor(env, key, x.P.ss.heapSort(el, true))
-		return Val{K: KArr, T: sx("select", h, sArr(a.T))}
+		r := Val{K: KArr, T: sx("select", h, sArr(a.T))}
+		if x.P.ss.kindOf(el) == KStruct {
+			r.Typ = el
+		}
+		return r
 	case "fpconst":
 		a := args()[0]
 		return Val{K: KFP, T: fpTerm(a, 64)}
